@@ -83,3 +83,49 @@ package transactional
 //gvc:  lit 1 requires ref != nil
 //gvc:  lit 1 ensures applied: litresult == nil ==> r.ReferenceStorer.#refs[strid(ref.n)] == ref
 //gvc:end
+
+// Transactional reflogs (property C19): the log a reader sees for name k is
+// the base log (hidden once the log was deleted in the transaction) followed by
+// what the transaction appended:
+//   rl_view(k) = (deleted[k] ? 0 : base.#loglen[k]) + temporal.#loglen[k]
+// entries. Append adds one entry to exactly that log, Delete empties exactly
+// that log (also when it was deleted before and appended to again), the base is
+// never touched before Commit, and every log with pending entries is recorded
+// in `appended` (what Commit replays).
+//gvc:pred rl_view(s, k) = ite(has(s.deleted, k), 0, s.base.#loglen[k]) + s.temporal.#loglen[k]
+//gvc:pred rl_inv(s) = forall(k, -0x7fffffffffffffff, 0x7fffffffffffffff, s.temporal.#loglen[k] >= 0 && s.base.#loglen[k] >= 0 && (s.temporal.#loglen[k] > 0 ==> has(s.appended, k)))
+
+//gvc:func (*ReflogStorage).Reflog
+//gvc:  props C19
+//gvc:  theory int
+//gvc:  opt coarse
+//gvc:  opt frame args
+//gvc:  results entries err
+//gvc:  requires distinct: s != nil ==> s.base != s.temporal
+//gvc:  ensures view: err == nil && s != nil ==> len(entries) == rl_view(s, strid(name))
+//gvc:end
+
+//gvc:func (*ReflogStorage).AppendReflog
+//gvc:  props C19
+//gvc:  theory int
+//gvc:  results err
+//gvc:  requires distinct: s != nil ==> s.base != s.temporal && s.appended != nil && s.appended != s.deleted
+//gvc:  requires inv: s != nil ==> rl_inv(s)
+//gvc:  modifies map:has, s.temporal.#loglen
+//gvc:  ensures appended: err == nil && s != nil ==> rl_view(s, strid(name)) == old(rl_view(s, strid(name))) + 1
+//gvc:  ensures others: s != nil ==> forall(k, -0x7fffffffffffffff, 0x7fffffffffffffff, k != strid(name) ==> rl_view(s, k) == old(rl_view(s, k)))
+//gvc:  ensures base: s != nil ==> s.base.#loglen == old(s.base.#loglen)
+//gvc:  ensures inv: s != nil ==> rl_inv(s)
+//gvc:end
+
+//gvc:func (*ReflogStorage).DeleteReflog
+//gvc:  props C19
+//gvc:  theory int
+//gvc:  results err
+//gvc:  requires distinct: s != nil ==> s.base != s.temporal && s.appended != nil && s.deleted != nil
+//gvc:  requires inv: s != nil ==> rl_inv(s)
+//gvc:  modifies map:has, s.temporal.#loglen
+//gvc:  ensures emptied: err == nil && s != nil ==> rl_view(s, strid(name)) == 0
+//gvc:  ensures others: s != nil ==> forall(k, -0x7fffffffffffffff, 0x7fffffffffffffff, k != strid(name) ==> rl_view(s, k) == old(rl_view(s, k)))
+//gvc:  ensures base: s != nil ==> s.base.#loglen == old(s.base.#loglen)
+//gvc:end
